@@ -788,8 +788,10 @@ def judge_weights(case):
             if p >= thr and abs(p - thr) >= band:
                 if k not in got or got[k][1] != "E" or abs(got[k][0] - N * p) > rel * N * p:
                     problems.append(f"map {k} with p={float(p)} >= 1/N must be EXACT with weight {float(N * p)}; got {got.get(k)}")
-        if len(got) > math.ceil(N):
-            problems.append(f"{len(got)} entries > ceil(N)={math.ceil(N)}")
+        # observation O2: maps whose probability is within the cut-off are not counted ("up to the 1e-14 cutoff")
+        counted = [k for k in got if k in jt and jt[k] > ATOL * Fraction(101, 100)]
+        if len(counted) > math.ceil(N):
+            problems.append(f"{len(counted)} entries > ceil(N)={math.ceil(N)}")
         tot = sum(wt for wt, _ in got.values())
         slack = N / 10**9 + N * nm * ATOL
         if abs(tot - N) > slack:
